@@ -49,6 +49,9 @@ def tt_pad(E, s):
     padding = tuple(tuple(p) for p in s['pad'])
     if s['value'] == 'sym':
         v = E.scalar('v', 'float', s['dtype'])
+    elif s['value'] == 'tensor0':
+        v = E.scalar('v', 'tensor0', s['dtype'])          # a 0-d tensor as fill value: it is an argument, not scratch space
+        v_before = v.clone()
     else:
         v = s['value']
     p_arg = [tuple(p) for p in padding] if s.get('pad_as_list') else padding
@@ -59,6 +62,9 @@ def tt_pad(E, s):
         z = E.tt.pad(x, p_arg, v)
     if s.get('pad_as_list'):
         E.true('padding_argument_intact', p_arg == [tuple(p) for p in padding])
+    if s['value'] == 'tensor0':
+        E.eq('value_argument_intact', v, v_before)
+        v = v_before
     ref = _dense_pad(E, dense(E, xc), padding, v)
     E.true('is_tt', isinstance(z, E.tt.TT))
     E.eq('value', dense(E, z.cores), ref)
